@@ -3,6 +3,7 @@ use crate::Ctx;
 
 pub mod c01;
 pub mod c03;
+pub mod c04;
 pub mod c14;
 pub mod c15;
 pub mod c16;
@@ -12,6 +13,7 @@ pub fn run(ctx: &Ctx) -> Report {
     "C01" => c01::run(ctx),
     "C02" => c03::run_c02(ctx),
     "C03" => c03::run_c03(ctx),
+    "C04" => c04::run(ctx),
     "C13" => c03::run_c13(ctx),
     "C14" => c14::run(ctx),
     "C15" => c15::run(ctx),
